@@ -334,6 +334,52 @@ def builder_names(ctx, rng, count):
     return bad
 
 
+def stored_values_stream(ctx, rng, count):
+    """a solved Problem is pickled AFTER the values its Variables carry have moved on (another Problem over the same Variables was
+    solved, or values were assigned by hand): the round trip must preserve status, value and the stored `variable_values`"""
+    import pickle
+    import sageopt.coniclifts as cl
+    bad = []
+    for t in range(count):
+        n = rng.randint(1, 3)
+        lo = [rng.randint(-3, 3) for _ in range(n)]
+        z = cl.Variable(shape=(n,), name='sv_z%d' % t)
+        u = cl.Variable(shape=(2,), name='sv_u%d' % t)
+        p1 = cl.Problem(cl.MIN, cl.sum(z) + u[0] + u[1], [z >= np.array(lo, dtype=float), u >= 1])
+        st1, v1 = p1.solve(verbose=False)
+        rep = {'n': n, 'lo': lo, 'mode': None}
+        ctx.case({'stream': 'stored-values', 'n': n, 'lo': lo}, nontrivial=True)
+        ctx.count('stream:stored-values')
+        if st1 != 'solved':
+            ctx.incon('stored-values: status %s' % st1)
+            continue
+        snap = {k: np.array(v, dtype=float).copy() for k, v in p1.variable_values.items()}
+        mode = rng.choice(['other-problem', 'assign', 'none'])
+        rep['mode'] = mode
+        if mode == 'other-problem':
+            p2 = cl.Problem(cl.MIN, cl.sum(z), [z >= np.array(lo, dtype=float) + 10])
+            p2.solve(verbose=False)
+        elif mode == 'assign':
+            z.value = np.zeros(n)
+            u.value = np.array([7.0, 7.0])
+        try:
+            q = pickle.loads(pickle.dumps(p1))
+        except Exception as e:  # noqa: BLE001
+            bad.append(('pickling a solved Problem raised %s' % type(e).__name__, rep))
+            continue
+        if q.status != st1 or abs(float(q.value) - float(v1)) > 1e-9:
+            bad.append(('a solved Problem (%s, %.9g) unpickles as (%s, %.9g)' % (st1, v1, q.status, q.value), rep))
+            continue
+        for k, v in snap.items():
+            got = q.variable_values.get(k)
+            if got is None or np.asarray(got, dtype=float).shape != v.shape or not np.allclose(np.asarray(got, dtype=float), v, atol=1e-9, equal_nan=True):
+                bad.append(('after %s the stored value of %s in the unpickled Problem is %s; the Problem was solved with %s (value %.9g)'
+                            % ({'other-problem': 'solving another Problem over the same Variables', 'assign': 'assigning other values to its Variables',
+                                'none': 'nothing else'}[mode], k, None if got is None else np.asarray(got, dtype=float).tolist(), v.tolist(), v1), rep))
+                break
+    return bad
+
+
 def _symmetric_values(seed):
     """a symmetric Variable next to an ordinary one: mirrored entries share a column, the columns are those of its own scalar ids,
     and after a solve the values land in the right object"""
@@ -441,6 +487,8 @@ def run(ctx):
     bseed, bcount = rng.randrange(1 << 30), 3 if quick else 20
     for what, rep in builder_names(ctx, random.Random(bseed), bcount):
         ctx.violation('names: ' + what, dict(rep, bseed=bseed, bcount=bcount))
+    for what, rep in stored_values_stream(ctx, rng, 9 if quick else 60):
+        ctx.violation('stored values: ' + what, rep)
     for what, rep in symmetric_stream(ctx, rng, 6 if quick else 60):
         ctx.violation('symmetric: ' + what, rep)
     if (not ctx.lean.ok or ctx.disagreements) and not ctx.violations:
